@@ -272,62 +272,64 @@ func ZZ_C05_FrameRoundTrip_witness() {
 var zzC05Known = []string{p2p.VERSION_TYPE, p2p.VERACK_TYPE, p2p.GetADDR_TYPE, p2p.ADDR_TYPE, p2p.PING_TYPE, p2p.PONG_TYPE, p2p.GET_HEADERS_TYPE,
 	p2p.HEADERS_TYPE, p2p.INV_TYPE, p2p.GET_DATA_TYPE, p2p.BLOCK_TYPE, p2p.TX_TYPE, p2p.CONSENSUS_TYPE, p2p.GET_BLOCKS_TYPE, p2p.NOT_FOUND_TYPE, p2p.DISCONNECT_TYPE}
 
-// ZZ_C05_FrameRejects: an arbitrary stream (header and up to P payload bytes, all symbolic, also truncated
-// streams). Whenever ReadMessage returns a message, the frame had the configured magic, a length within the
-// limit, the announced payload fully present, the header checksum of exactly the bytes read as payload, and a
-// known command. Read contrapositively: wrong magic, length/checksum mismatch, oversize, unknown command are rejected.
+// ZZ_C05_FrameRejects: an arbitrary stream (24 header bytes and P payload bytes, all symbolic; also streams cut
+// inside or before the header). The harness first classifies the frame itself -- magic equal to the configured one,
+// announced length k (every k <= P one by one, or "more than the P bytes that follow"), header checksum equal to
+// Checksum(payload[0:k]), command field equal to one of the 16 zero-padded command names -- and then requires
+// ReadMessage to agree: any frame failing one of these tests is rejected; an accepted frame yields the message kind
+// named by the command field, reports length k and consumes exactly 24+k bytes. Nothing may panic.
 func ZZ_C05_FrameRejects() {
 	P := zzsym.Param("P")
 	magic := zzsym.U32("magic")
 	config.DefConfig.P2PNode.NetworkMagic = magic
 	total := []int{p2p.MSG_HDR_LEN + P, p2p.MSG_HDR_LEN - 1, 0}[zzsym.Choose("truncated", 3)]
 	stream := zzsym.Bytes("stream", total)
+	k, cmd := -1, ""
+	wellFramed := false
 	if total >= p2p.MSG_HDR_LEN {
 		// the announced length: every value 0..P one by one (written into the header), and "any value above P"
 		// (left symbolic). Together these are all 2^32 values; enumerating keeps the payload length concrete.
-		if k := zzsym.Choose("length", P+2); k <= P {
+		if k = zzsym.Choose("length", P+2); k <= P {
 			stream[16], stream[17], stream[18], stream[19] = byte(k), 0, 0, 0
 		} else {
 			zzsym.Assume(zzC05LE32(stream[16:20]) > uint32(P))
 		}
-		// ADDR frames are left to ZZ_C05_PayloadNoPanic_Addr: that decoder has a defect of its own (F10) which cannot be
+		// ADDR frames are left to ZZ_C05_PayloadNoPanic_Addr: that decoder has a defect of its own which cannot be
 		// replayed through the frame layer (SHA-256 is uninterpreted here). Set SKIPADDR to 0 once it is repaired.
 		if zzsym.Param("SKIPADDR") == 1 {
 			zzsym.Assume(!bytes.Equal(stream[4:16], []byte("addr\x00\x00\x00\x00\x00\x00\x00\x00")))
 		}
+		if zzC05LE32(stream[0:4]) == magic && k <= P {
+			sum := p2p.Checksum(stream[p2p.MSG_HDR_LEN : p2p.MSG_HDR_LEN+k])
+			if bytes.Equal(stream[20:24], sum[:]) {
+				for _, c := range zzC05Known {
+					var padded [p2p.MSG_CMD_LEN]byte
+					copy(padded[:], c)
+					if bytes.Equal(stream[4:16], padded[:]) {
+						cmd = c
+					}
+				}
+				wellFramed = cmd != ""
+			}
+		}
 	}
 	r := bytes.NewReader(stream)
 	m, n, err := ReadMessage(r)
+	if !wellFramed {
+		zzsym.Assert(err != nil && m == nil, "a frame that is cut short, has the wrong magic, announces more payload than follows, has a checksum mismatch or an unknown command is rejected")
+		zzsym.Cover("rejected-frame")
+		return
+	}
 	if err != nil {
+		// well-framed, but the payload is not a valid message of that kind
 		zzsym.Assert(m == nil, "a rejected frame yields no message")
-		zzsym.Cover("rejected")
+		zzsym.Cover("rejected-payload")
 		return
 	}
-	zzsym.Assert(total >= p2p.MSG_HDR_LEN, "an accepted frame has a complete header")
-	if total < p2p.MSG_HDR_LEN {
-		return
-	}
-	length := zzC05LE32(stream[16:20])
-	zzsym.Assert(zzC05LE32(stream[0:4]) == magic, "an accepted frame carries the configured magic")
-	zzsym.Assert(length <= p2p.MAX_PAYLOAD_LEN && n == length, "an accepted frame announces a length within the limit, which is the length reported")
-	zzsym.Assert(uint64(length) <= uint64(total-p2p.MSG_HDR_LEN), "an accepted frame's payload is fully present in the stream")
-	if uint64(length) > uint64(total-p2p.MSG_HDR_LEN) {
-		return
-	}
-	k := int(length) // concrete: see the enumeration above
-	zzsym.Assert(r.Len() == total-p2p.MSG_HDR_LEN-k, "ReadMessage consumes exactly header and payload")
-	sum := p2p.Checksum(stream[p2p.MSG_HDR_LEN : p2p.MSG_HDR_LEN+k])
-	zzsym.Assert(bytes.Equal(stream[20:24], sum[:]), "an accepted frame's header checksum is the checksum of the payload that was read")
-	known := false
-	for _, c := range zzC05Known {
-		if m.CmdType() == c {
-			known = true
-			zzsym.Assert(bytes.Equal(bytes.TrimRight(stream[4:16], "\x00"), []byte(c)), "the message kind returned is the one named by the header's command field")
-		}
-	}
-	zzsym.Assert(known, "an accepted frame names one of the 16 known commands")
+	zzsym.Assert(m.CmdType() == cmd, "an accepted frame yields the message kind named by its command field")
+	zzsym.Assert(int(n) == k && r.Len() == total-p2p.MSG_HDR_LEN-k, "ReadMessage reports the announced length and consumes exactly header and payload")
 	zzsym.Cover("accepted")
-	if m.CmdType() == p2p.PING_TYPE {
+	if cmd == p2p.PING_TYPE {
 		zzsym.Cover("accepted-ping")
 	}
 }
